@@ -133,12 +133,12 @@ def _slice_inner(slize: Slice) -> SliceInner:
 
 def _get_inner(slice: Slice) -> SliceInner:
     """Get a slice's `SliceInner`, calculating it inline if necessary.
-    The result is kept for as long as the parent - and the parent's width - remain those it was calculated for.
-    (Signal widths can be edited, and references are replaced by what they resolve to during elaboration.)"""
+    The result is kept for as long as the parent, the parent's width and our index remain those it was calculated for.
+    (These fields can be edited, and references are replaced by what they resolve to during elaboration.)"""
 
     from .elab.helpers.width import width as width_of
 
-    key = (id(slice.parent), width_of(slice.parent))
+    key = (id(slice.parent), width_of(slice.parent), repr(slice.index))
     if slice._inner is None or getattr(slice, "_inner_key", None) != key:
         slice._inner = _slice_inner(slice)
         slice._inner_key = key
